@@ -289,7 +289,7 @@ func jsonable(t interface{}) interface{} {
 
 func genC18(g *Gen) {
 	r := g.R
-	j := &jsonGen{r: r, noF16F21: true}
+	j := &jsonGen{r: r, noF16F21: true, yamlSafe: true}
 	for i := 0; i < g.N; i++ {
 		indent := r.Bool()
 		n := 1 + r.Intn(4)
